@@ -916,6 +916,14 @@ func (e *Engine) assertAtCall(st *State, key string, call *ast.CallExpr) error {
 				}
 			}
 		}
+		// $recv: the value the method is called on, whatever the code calls it
+		if strings.Contains(text, "$recv") {
+			if se, ok := ast.Unparen(call.Fun).(*ast.SelectorExpr); ok {
+				if rv, err := e.eval(st.Clone(), se.X); err == nil {
+					env.Bound["$recv"] = rv
+				}
+			}
+		}
 		v, err := e.evalSpec(env, x)
 		if err != nil {
 			return fmt.Errorf("%s: assert-at-call of %s: %v", e.curCon.File, e.curCon.Key, err)
